@@ -119,6 +119,7 @@ def shards(tier, seed):
 def pi_shapes(tier):
     # (n_quantities, n_dimensions, entry alphabet tag, part, nparts)
     sh = [(1, 1, "w", 0, 1), (2, 1, "w", 0, 1), (2, 2, "w", 0, 1), (3, 1, "w", 0, 1), (3, 2, "w", 0, 1), (4, 2, "n", 0, 1), (3, 3, "n", 0, 1)]
+    sh += [(3, 2, "x", p, 8) for p in range(8)]
     if tier == "thorough":
         sh += [(4, 2, "w", p, 4) for p in range(4)] + [(3, 3, "w", p, 8) for p in range(8)] + [(4, 3, "n", p, 16) for p in range(16)]
     return sh
@@ -626,7 +627,7 @@ def _rank(rows):
 
 
 PI_LINES = ["ua = [A]", "ub = [B]", "uc = [C]"]
-ENT = {"w": (-1, 0, 1, 2), "n": (-1, 0, 1)}
+ENT = {"w": (-1, 0, 1, 2), "n": (-1, 0, 1), "x": (-3, -2, -1, 0, 1, 2, 3)}  # "x": null vectors with co-prime denominators, e.g. (1, 1/2, 1/3)
 
 
 def pi_case(ureg, cols, nd):
